@@ -21,6 +21,7 @@ KANI_INJECT = {
     "src/error.rs": "error.rs",
     "src/parser/block_parser.rs": "block_parser.rs",
     "src/text.rs": "text.rs",
+    "src/parser/model.rs": "parser_model.rs",
 }
 
 NATIVE_INJECT = {
@@ -60,6 +61,24 @@ class Scratch:
              "--exclude", "/playground/target", "--exclude", "/playground/node_modules", "--exclude", "/fuzz/target",
              REPO + "/", self.repo + "/"], check=True)
         return self.repo
+
+    def inject_bindings(self):
+        """scratch copy only: make the bindings crate linkable from the companion binary (its crate-type is cdylib/staticlib)
+        and give the companion a constructor for `Amount`, whose fields are crate-private"""
+        hdir = os.path.join(VERIF, "harness")
+        ct = os.path.join(self.repo, "bindings", "Cargo.toml")
+        model = os.path.join(self.repo, "bindings", "src", "model.rs")
+        if not (os.path.isfile(ct) and os.path.isfile(model)):
+            return ["bindings/Cargo.toml", "bindings/src/model.rs"]
+        txt = open(ct).read()
+        if '"lib"' not in txt:
+            txt = txt.replace('crate-type = ["cdylib", "staticlib"]', 'crate-type = ["cdylib", "staticlib", "lib"]')
+            open(ct, "w").write(txt)
+        if "verif_hooks" not in open(model).read():
+            with open(model, "a") as f:
+                f.write("\n#[cfg(cooklang_verif)]\n#[allow(unused, clippy::all)]\npub mod verif_hooks { include!(\"%s\"); }\n"
+                        % os.path.join(hdir, "native_bindings_model.rs"))
+        return []
 
     def inject(self):
         """Append cfg-guarded child modules to the scratch copy (never to /repo)."""
